@@ -127,6 +127,9 @@ pub struct BaseRun<G: Cv> {
 pub fn make_base<G: Cv>(env: &Env<G>, prog: &Program, seed: u64) -> Result<BaseRun<G>, String> {
     let pr = guarded(|| program::prove::<G>(prog, &env.pc, &env.bp, seed, "c05", Dev::None))?;
     let _bytes = pr.proof.clone()?;
+    if !pr.ctx.problems.is_empty() {
+        return Err("prover and reference model disagree on the variables handed out (C16's business)".into());
+    }
     let proof = pr.obj.clone().ok_or("no proof object")?;
     let rc = &pr.ctx.refcs;
     let kterms: Vec<usize> = rc.k_terms.clone();
@@ -193,8 +196,12 @@ pub fn run_dev<G: Cv>(env: &Env<G>, b: &BaseRun<G>, d: &SDev, seed: u64) -> Out 
     }
     let vr = match guarded(|| program::verify::<G>(&vprog, &pc, &env.bp, seed, dev.clone(), &comms, &b.proof, label)) {
         Ok(v) => v,
-        Err(m) => return Out::Panic(m),
+        // a panicking verifier did not accept anything (panics are C08's business)
+        Err(_) => return Out::DontCare("verifier panicked (C08's business)", false),
     };
+    if !vr.ctx.problems.is_empty() {
+        return Out::DontCare("verifier and reference model disagree on the variables handed out (C16's business)", vr.result.is_ok());
+    }
     // a constraint change that the committed values (and the rest of the witness) still satisfy
     if matches!(d, SDev::KConst(..) | SDev::KCoef(..)) {
         let rc = &vr.ctx.refcs;
